@@ -92,7 +92,8 @@ int main() {
         std::string cmd; is >> cmd;
         H& W = *h; W.w.log.clear();
         bool bad = false;
-        if (cmd == "new") { h.reset(); verif::vclock::now_ticks = 0; verif::world().next_stream_id = 0; h = std::make_unique<H>(); }
+        if (cmd == "new") { verif::world().pending.clear(); h.reset(); verif::world().pending.clear(); stream_t::registry().clear();
+            verif::vclock::now_ticks = 0; verif::world().next_stream_id = 0; h = std::make_unique<H>(); }
         else if (cmd == "cfg") {
             std::string k; 
             while (is >> k) {
